@@ -487,7 +487,7 @@ func main() {
 	for _, s := range spaces {
 		nEx += s.n
 	}
-	nRand := c.Pick(24000, 600000)
+	nRand := c.Pick(60000, 2000000)
 	c.Note("exhaustive_part", fmt.Sprintf("all words of the listed depths over the op alphabets (no-op symbols pruned): %v; plus %d random schedules of length <= 40 over 3 keys including concurrent C(j,op) steps", func() []string {
 		var o []string
 		for _, s := range spaces {
